@@ -37,7 +37,7 @@ def gen_cases(tier, seed):
         if mode == "obs":
             W = r.choice([1, 2, 4])
         elif mode == "fail2":
-            extra = {"faults": {"p": r.choice([0.25, 0.4]), "kinds": ["exc", "value"]}, "max_errors": None, "force_out": "sinks"}
+            extra = {"faults": {"p": r.choice([0.25, 0.4]), "kinds": r.choice([["exc", "value"], ["exc", "base", "sysexit"], ["base", "kbi"]])}, "max_errors": None, "force_out": "sinks"}
         elif mode == "retry":
             n_att = r.choice([2, 3, 4])
             extra = {"retry": n_att, "faults": {"p": r.choice([0.3, 0.6]), "kinds": ["exc", "value"], "flaky": True, "max_flaky": n_att - 1}}
